@@ -12,7 +12,7 @@ func init() {
 		Title: "only-if-cached never touches the network",
 		Decides: "in no function reachable from RoundTrip (goroutines included) is an origin call site reachable on a path consistent with " +
 			"the request's only-if-cached accessor being true; under that valuation every return hands out a stored response or the synthesised 504.",
-		NotDecided: "that the accessor reflects the header for every spelling (C12), behaviour of a caller-supplied upstream.",
+		NotDecided: "that the accessor reflects the header for every spelling (C12; only the all-field-lines part is repeated here as C18.3), behaviour of a caller-supplied upstream.",
 		Assumptions: []string{
 			"call graph (VTA seeded by CHA; thorough repeats on CHA) is complete: repo uses no reflect/unsafe (checked)",
 			"directive accessors are effect-free (checked) so two evaluations agree",
@@ -26,6 +26,7 @@ func init() {
 			}, MinSites: 3},
 			{ID: "C18.1", Desc: "under rq.only-if-cached=T no upstream call and no spawn reaching one", Run: ruleC18_1, MinSites: 1},
 			{ID: "C18.2", Desc: "under rq.only-if-cached=T every outcome is a stored response or the synthesised 504", Run: ruleC18_2, MinSites: 1},
+			{ID: "C18.3", Desc: "the request's Cache-Control is read through all of its field lines (only-if-cached on a second line counts)", Run: func(c *Ctx) { ruleRLIST(c, "C18.3", "Cache-Control") }, MinSites: 1},
 		},
 	})
 }
